@@ -122,6 +122,10 @@ def wf_family(prop, tier):
     d1 = c02_depth1()
     out += d1 if tier == "thorough" else d1[::4]
     out += c05_struct()
+    c3 = c03(tier)
+    out += c3 if tier == "thorough" else c3[::2]
+    c17p = c17(tier)
+    out += c17p if tier == "thorough" else c17p[::3]
     # metadata / plugin-variable usage: explicit registers only, slot cancel, aliases, immediates only, nothing at all
     out += ["{ R0 = R1; }", "{ if (P0 & 1) { R0 = R1; } else { STORE_SLOT_CANCELLED(pkt, slot); } }", "{ STORE_SLOT_CANCELLED(pkt, slot); }",
             "{ HEX_REG_ALIAS_LR = HEX_REG_ALIAS_SP; }", "{ R0 = get_npc(pkt); }", "{ R0 = 1; }", "{ R0 = siV; }", "{ P0 = P1; }",
@@ -218,6 +222,18 @@ def c03(tier):
     out += ["{ RdV = (RsV < RtV); }", "{ RddV = (RsV <= RtV); }", "{ PdV = (RsV != RtV); }", "{ RdV = !RsV; }",
             "{ PdV = !RsV; }", "{ RdV = (RsV || RtV); }", "{ mem_store_u8(RuV, (RsV < RtV)); }",
             "{ mem_store_u32(RuV, !RsV); }", "{ RxV = (RxV < RtV); }"]
+    # folded constants (negative folded values of unsigned type, boundary values) converted to every type and mixed with 64-bit operands
+    consts = ["~0x7U", "(0U - 1U)", "-1", "~0", "-128", "0xffU", "(1U - 2U)", "~0ULL", "-1LL", "~0x7", "(3U * 5U)", "(2 - 3)", "(0xffffffffU + 0)"]
+    for c in consts:
+        for (t, wt, _) in TYPES:
+            out.append(f"{{ RddV = ({t}){c}; }}")
+        out.append(f"{{ RddV = RssV & {c}; }}")
+        out.append(f"{{ uint64_t u = RssV; RddV = u & {c}; }}")
+        out.append(f"{{ uint64_t u = RssV; RddV = u + {c}; }}")
+        out.append(f"{{ RddV = RssV + {c}; }}")
+        out.append(f"{{ mem_store_u64(RtV, {c}); }}")
+        out.append(f"{{ RddV = vf_id_uint64_t({c}); }}")
+        out.append(f"{{ RddV = vf_id_int64_t({c}); }}")
     # chains of up to three conversions
     triples = list(itertools.product(TNAME, repeat=3))
     if tier != "thorough":
@@ -569,6 +585,15 @@ def c09_literals():
 def c09(tier):
     out = []
     lits = c09_literals()
+    # every literal against an UNSIGNED 64-bit operand / target (widening of the literal's type to an unsigned type)
+    for l in lits:
+        import re as _re
+        m = _re.match(r"^(\d+)(LL|ll)?$", l)
+        if m and int(m.group(1)) >= 2 ** 63:
+            continue
+        out.append(f"{{ uint64_t u = RssV; RddV = u & {l}; }}")
+        out.append(f"{{ RddV = (uint64_t){l}; }}")
+        out.append(f"{{ uint64_t u = RssV; RddV = (u < {l}); }}")
     for l in lits:
         import re as _re
         m = _re.match(r"^(\d+)(LL|ll)?$", l)
